@@ -59,6 +59,9 @@ func (c12) Gen(r *sim.Rand, tier string, run uint64) *sim.Scenario {
 		sc.Cfg["sinkk"] = int64(r.Intn(30))
 		sc.Cfg["rc"] = int64(r.Intn(2))
 		sc.Cfg["again"] = int64(r.Intn(3) / 2) // a second RunUntil call on the same System
+		if r.Chance(1, 6) {
+			placeAtBankEnd(r, sc, false)
+		}
 	case x < 80:
 		kind := int64(1 + r.Intn(2))
 		sc.Cfg["kind"] = kind
@@ -84,6 +87,10 @@ func (c12) Gen(r *sim.Rand, tier string, run uint64) *sim.Scenario {
 		}
 		sc.Ops = ops
 		sc.Cfg["wdm"] = int64(r.Intn(2))
+		if r.Chance(1, 6) {
+			placeAtBankEnd(r, sc, true)
+			sc.Cfg["wdm"] = 1
+		}
 	default:
 		sc.Cfg["kind"] = 3
 		sc.Cfg["opcode"] = int64(run % 256)
@@ -99,6 +106,38 @@ func (c12) Gen(r *sim.Rand, tier string, run uint64) *sim.Scenario {
 		sc.Cfg["o3"] = int64(r.Intn(0x70))
 	}
 	return sc
+}
+
+// placeAtBankEnd moves the start address so that instruction k of the program begins on the
+// last bytes of its bank; with wdm it also makes that instruction a WDM (operand across the wrap).
+func placeAtBankEnd(r *sim.Rand, sc *sim.Scenario, keepBank bool) {
+	var idx []int
+	for i, op := range sc.Ops {
+		if op.K == "i" {
+			idx = append(idx, i)
+		}
+	}
+	if len(idx) == 0 {
+		return
+	}
+	k := idx[r.Intn(len(idx))]
+	if r.Chance(1, 2) {
+		sc.Ops[k].B = []byte{0x42, byte(r.Intn(256))}
+	}
+	off := 0
+	for _, op := range sc.Ops[:k] {
+		if op.K == "i" {
+			off += len(op.B)
+		}
+	}
+	edge := int64(sim.PickInt(r, 0xFFFD, 0xFFFE, 0xFFFF, 0xFFFF))
+	if int64(off) < edge {
+		bank := sc.Cfg["pc"] & 0xFF0000
+		if !keepBank {
+			bank = int64(sim.PickInt(r, 0x7E0000, 0x000000, 0x010000, 0x7F0000, 0x3F0000))
+		}
+		sc.Cfg["pc"] = bank | (edge - int64(off))
+	}
 }
 
 func (c c12) Exec(sc *sim.Scenario, env *sim.Env) *sim.Violation {
@@ -324,6 +363,48 @@ func c12sys(sc *sim.Scenario, env *sim.Env) *sim.Violation {
 	if len(onpc) > 0 {
 		s.CPU.OnPC = onpc
 	}
+	// second hook set for the second call: as many hooks, at addresses visited by the second
+	// call, preferably in banks the first set does not touch
+	onpc2 := map[uint32]func(){}
+	cbAddrs2 := map[uint32]bool{}
+	if again && len(onpc) > 0 && len(recs2) > 0 {
+		banks1 := map[byte]bool{}
+		for a := range cbAddrs {
+			banks1[byte(a>>16)] = true
+		}
+		var pref, other []uint32
+		seen := map[uint32]bool{}
+		for _, r := range recs2 {
+			a := r.R.PCL()
+			if seen[a] {
+				continue
+			}
+			seen[a] = true
+			if banks1[r.R.RK] {
+				other = append(other, a)
+			} else {
+				pref = append(pref, a)
+			}
+		}
+		cand := append(pref, other...)
+		for len(cand) > 0 && len(cbAddrs2) < len(cbAddrs) {
+			cbAddrs2[cand[0]] = true
+			cand = cand[1:]
+		}
+		for n := uint32(0); len(cbAddrs2) < len(cbAddrs); n++ {
+			cbAddrs2[0xEE0000|n] = true // filler hooks that are never reached keep the count equal
+		}
+		for a := range cbAddrs2 {
+			a := a
+			onpc2[a] = func() {
+				env.Yield("cb.pc")
+				ev := cbEvent{addr: a, pcAtCall: s.GetPC(), allCycles: s.CPU.AllCycles}
+				cbEvents = append(cbEvents, ev)
+			}
+		}
+		st.ProbeIf(len(pref) > 0, "hooks_replaced_in_new_bank")
+		st.Probe("hooks_replaced_between_calls")
+	}
 	var wdmArgs []byte
 	if sc.C("wdm") != 0 {
 		s.CPU.OnWDM = func(b byte) {
@@ -338,6 +419,9 @@ func c12sys(sc *sim.Scenario, env *sim.Env) *sim.Violation {
 	pA, pvA, wd := sim.RecoverWD(func() {
 		ret = s.RunUntil(target, budget)
 		if again {
+			if len(onpc2) > 0 {
+				s.CPU.OnPC = onpc2 // the host replaces its hooks between two calls (same number of hooks)
+			}
 			ret = s.RunUntil(target, budget)
 		}
 	})
@@ -404,10 +488,19 @@ func c12sys(sc *sim.Scenario, env *sim.Env) *sim.Violation {
 	// callbacks: exactly once before each instruction fetched at a registered address
 	if len(onpc) > 0 {
 		want := map[uint32]int{}
-		for _, r := range recs {
-			if cbAddrs[r.R.PCL()] {
+		hooked := func(i int, a uint32) bool {
+			if len(onpc2) > 0 && i >= firstCall {
+				return cbAddrs2[a]
+			}
+			return cbAddrs[a]
+		}
+		for i, r := range recs {
+			if hooked(i, r.R.PCL()) {
 				want[r.R.PCL()]++
 			}
+		}
+		for a := range cbAddrs2 {
+			cbAddrs[a] = cbAddrs[a] || false
 		}
 		got := map[uint32]int{}
 		for _, ev := range cbEvents {
@@ -416,7 +509,14 @@ func c12sys(sc *sim.Scenario, env *sim.Env) *sim.Violation {
 				return &sim.Violation{Oracle: "onpc_wrong_address", Step: -1, Msg: fmt.Sprintf("callback registered at %06x ran while PC=%06x", ev.addr, ev.pcAtCall)}
 			}
 		}
+		all := map[uint32]bool{}
 		for a := range cbAddrs {
+			all[a] = true
+		}
+		for a := range cbAddrs2 {
+			all[a] = true
+		}
+		for a := range all {
 			if got[a] != want[a] {
 				return &sim.Violation{Oracle: "onpc_count", Step: -1,
 					Msg: fmt.Sprintf("callback at %06x ran %d times; %d instructions were fetched there (target=%06x)", a, got[a], want[a], target)}
@@ -426,8 +526,8 @@ func c12sys(sc *sim.Scenario, env *sim.Env) *sim.Violation {
 		// it must see the cycle total of that instant (i.e. run before the instruction)
 		idx := 0
 		var cyc uint64
-		for _, r := range recs {
-			if cbAddrs[r.R.PCL()] {
+		for i, r := range recs {
+			if hooked(i, r.R.PCL()) {
 				if idx < len(cbEvents) {
 					ev := cbEvents[idx]
 					if ev.addr != r.R.PCL() || ev.allCycles != cyc {
